@@ -21,6 +21,7 @@ RULE = (
     "quick. Also a block-size sweep (generated blocks of 1..64 statements; rows with more temporaries than statements), the "
     "3-output CSE programs with the most temporaries, and definitions whose symbols carry sympy assumptions. "
     "distinct = distinct (definition, CSE) pairs; non-trivial = >= 2 input symbols."
+    " Saturation constructs (Piecewise) alone and shared by several outputs."
 )
 ASSUMPTIONS = [
     "the vendored Eigen stand-in is at least as permissive as Eigen 3.4 on the slice the generator emits (DESIGN 2.4)",
@@ -47,6 +48,7 @@ def cases(tier, seed):
     big = space.family_sizes(tier) + [with_sensors(d) for d in space.family_cse(tier)
                                       if any(t in d["name"] for t in ("chain5", "manytemps24", "ctl-only"))]
     defs += big
+    defs += [with_sensors(d) for d in space.family_piecewise() if len(d["state"]) == 2] + space.family_piecewise()[1:2]
     # symbols declared with sympy assumptions (Symbol("x", real=True) is a different object from Symbol("x"))
     defs += [space.assumed(defs[13]), space.assumed(defs[22], ["x", "w"])]
     if tier == "quick":
